@@ -6,7 +6,7 @@ import corr
 import vlib
 
 PROP = "C12"
-MODULE = "Proofs.C12All"
+MODULE = "Proofs.C12"
 GOLDEN_MODULE = "Proofs.C12BindGolden"
 NS = "Teakra.Bus."
 THEOREMS = [NS + t for t in [
@@ -16,10 +16,11 @@ THEOREMS = [NS + t for t in [
     "mirror_host", "mirror_host_write", "mirror_dsp", "mirror_dsp_write",
     "write_no_event_unless_trigger", "read_no_event", "read_pure_unless_fifo",
     "const_reads", "wo_read_unchanged", "accum_reads_or", "reset_clears_icu_and_store", "resetUpstream_keeps_icu_and_store"]] + [
-    "Teakra.cell_frame", "Teakra.cell_readback", "Teakra.cell_events",
-    # over the binding table translated from src/mmio.cpp of the tree under test on every run (Proofs/C12Bind.lean)
+    "Teakra.cell_frame", "Teakra.cell_readback", "Teakra.cell_events"]
+# over the binding table translated from src/mmio.cpp of the tree under test on every run (Proofs/C12Bind.lean)
+EXTRA_MODULES = [("Proofs.C12Bind", [
     "Teakra.bind_wellformed", "Teakra.bind_setters_distinct", "Teakra.setters_disjoint_of_ne", "Teakra.slotsOk_bounds",
-    "Teakra.bind_offsets_eq_model", "Teakra.bind_const_eq_model", "Teakra.bind_mask_eq_model"]
+    "Teakra.bind_offsets_eq_model", "Teakra.bind_const_eq_model", "Teakra.bind_mask_eq_model"])]
 TRUSTED = ["tools/translate_mmio.py (constructor of MMIORegion -> lean/TeakraModel/Generated/MmioBind.lean: loops unrolled, "
            "offsets evaluated, accessor expressions identified by the first 32 bits of the SHA-256 of their canonical text)",
            "hand-written model lean/TeakraModel/{Periph,Mmio,MmioKinds,Bus}.lean of src/mmio.cpp, src/memory_interface.*, "
@@ -64,6 +65,8 @@ def binding_rows(path):
     cur = None
     for line in open(path):
         m = re.match(r"^  \(0x([0-9A-F]{3}), ", line)
+        if line.startswith("/--") or line.startswith("def mmioDups"):
+            cur = None
         if m:
             cur = int(m.group(1), 16)
             rows[cur] = ""
